@@ -196,6 +196,9 @@ func newLemmaRun(spec *LemmaSpec, tier string, known map[string]string) *LemmaRu
 	return l
 }
 
+// solverRecycleDefs: a worker's solver process is replaced after this many define-fun commands.
+const solverRecycleDefs = 150000
+
 // worker owns one interpreter and one solver.
 type worker struct {
 	in *Interp
@@ -296,6 +299,15 @@ func (w *worker) runPath(l *LemmaRun, entry *ssa.Function, prefix []Decision) {
 		}
 	}
 	in.sol.PopTo(0)
+	if in.sol.TotalDefs > solverRecycleDefs && !(in.sol.Errors > errsAtStart) {
+		// z3 4.8.12 slows down with every definition it has ever seen (even popped ones): recycle the process.
+		old := in.sol
+		old.Close()
+		in.sol = NewSolver(old.kind, old.timeoutMs)
+		in.sol.record = old.record
+		in.sol.Queries, in.sol.Sat, in.sol.Unsat, in.sol.Unknown = old.Queries, old.Sat, old.Unsat, old.Unknown
+		in.sol.Errors, in.sol.Dur = old.Errors, old.Dur
+	}
 	if in.sol.Errors > errsAtStart || strings.Contains(in.sol.lastErr, "canceled") {
 		// The solver printed an (error …) during this path - typically z3 4.8.12's "push canceled" right after a query
 		// timeout: the (push 1) was dropped, so the solver's assertion stack no longer matches ours and every later
